@@ -111,6 +111,21 @@ def export_table(u):
     W = {}
     tags = {}
     local = {f.name: _local_states(f, tags) for f in u.funcs(only_main=True)}
+    # a helper that opens the child element on a state it RECEIVES (state->new_child(state, vstate, "tag") with vstate a
+    # parameter) establishes that element for the caller's state too: the caller goes on writing attributes of "tag"
+    funcs = {f.name: f for f in u.funcs(only_main=True)}
+    for _ in range(3):
+        for f in funcs.values():
+            for c in f.calls():
+                g = funcs.get(c.get("fn"))
+                if g is None:
+                    continue
+                pn = [q["n"] for q in g.params]
+                for i, a in enumerate(args(c)):
+                    if i < len(pn) and pn[i] in local[g.name]:
+                        sk = _statekey(a)
+                        if sk is not None:
+                            local[f.name].setdefault(sk, set()).update(local[g.name][pn[i]])
     ptag = param_states(u, local)
     for f in u.funcs(only_main=True):
         st2tag = local[f.name]
@@ -276,36 +291,41 @@ def escapes(chk, P, rule="R-ESC"):
     ex = P.need_func("hwloc__nolibxml_export_escape_string", "topology-xml-nolibxml.c")
     im = P.need_func("hwloc__nolibxml_import_next_attr", "topology-xml-nolibxml.c")
     enc = {}
-    # switch cases: case 'c': strcpy(dst, "&ent;"); replen = N
-    for sw in [x for x in ex.walk() if x["k"] == "Switch"]:
-        body = sw["c"][1]
-        cur = []
-        for stn in (body.get("c") or []):
-            if stn is None:
-                continue
-            nodes_ = [stn]
-            # unwrap nested case labels:  case 'a': case 'b': stmt
-            while nodes_[-1]["k"] in ("Case", "Default"):
-                lab = nodes_[-1]
-                if lab["k"] == "Case":
-                    cur.append(cval(lab["c"][0]))
-                else:
-                    cur = []
-                nodes_.append(lab["c"][-1])
-            st_ = nodes_[-1]
-            for y in subnodes(st_):
-                if y["k"] == "Call" and y.get("fn") == "strcpy":
-                    sl = strip(args(y)[1])
-                    if sl["k"] == "Str":
+    # the writer's table: a switch on the character, in the escaping function or in a helper extracted from it, whose cases mention
+    # the entity literal ("&lt;") -- copied with strcpy, returned, or assigned -- and possibly a constant length for it (replen = N);
+    # a length that is computed (strlen of the entity) needs no check
+    for wf in P.unit("topology-xml-nolibxml.c").funcs(only_main=True):
+        for sw in [x for x in wf.walk() if x["k"] == "Switch"]:
+            body = sw["c"][1]
+            cur = []
+            for stn in (body.get("c") or []):
+                if stn is None:
+                    continue
+                nodes_ = [stn]
+                # unwrap nested case labels:  case 'a': case 'b': stmt
+                while nodes_[-1]["k"] in ("Case", "Default"):
+                    lab = nodes_[-1]
+                    if lab["k"] == "Case":
+                        cur.append(cval(lab["c"][0]))
+                    else:
+                        cur = []
+                    nodes_.append(lab["c"][-1])
+                st_ = nodes_[-1]
+                for y in subnodes(st_):
+                    if y["k"] == "Str" and y.get("s", "").startswith("&") and y["s"].endswith(";"):
                         for ch in cur:
-                            enc[ch] = (sl["s"], enc.get(ch, (None, None))[1])
-                a = assigned(y)
-                if a and lv(a[0]) == "replen" and a[2] is not None:
-                    for ch in cur:
-                        if ch in enc:
-                            enc[ch] = (enc[ch][0], cval(a[2]))
-            if st_["k"] == "Break":
-                cur = []
+                            enc[ch] = (y["s"], enc.get(ch, (None, None))[1])
+                    a = assigned(y)
+                    if a and lv(a[0]) and a[1] == "=" and a[2] is not None and cval(a[2]) is not None and strip(a[0])["k"] == "Ref" \
+                            and wf.type_of(strip(a[0])) and not wf.type_of(strip(a[0])).get("ptr"):
+                        for ch in cur:
+                            if ch in enc:
+                                enc[ch] = (enc[ch][0], cval(a[2]))
+                if st_["k"] in ("Break", "Return"):
+                    cur = []
+    if not enc:
+        chk.broke("%s: the escape table of the built-in XML writer was not found (no switch on the character with entity literals in topology-xml-nolibxml.c)" % rule)
+        return 0
     dec = {}
     # the reader's entity table may sit in hwloc__nolibxml_import_next_attr itself or in a helper extracted from it: every
     # strncmp(p, "ent;", n) of the unit whose guarded block yields a constant character (stored through a subscript or a pointer)
@@ -341,7 +361,7 @@ def escapes(chk, P, rule="R-ESC"):
         n += 1
         ent = lit[1:] if lit.startswith("&") else lit
         d = dec.get(ent)
-        ok = rep == len(lit) and d is not None and d[0] == ch and d[1] == len(ent) and d[2] == len(ent)
+        ok = (rep is None or rep == len(lit)) and d is not None and d[0] == ch and d[1] == len(ent) and d[2] == len(ent)
         chk.inst(rule, ex, "escape:%d" % ch, ok, "char %r -> %r (replen %s): reader maps %r back to %s comparing %s and skipping %s characters" % (chr(ch), lit, rep, ent, d[0] if d else None, d[1] if d else None, d[2] if d else None))
     # charset of strcspn == set of cases
     for c in ex.calls("strcspn"):
@@ -350,7 +370,7 @@ def escapes(chk, P, rule="R-ESC"):
             n += 1
             chk.inst(rule, ex, "charset#%d" % n, set(ord(x) for x in s["s"]) == set(enc), "strcspn stops exactly at the escaped characters (%r vs cases %s)" % (s["s"], sorted(chr(c2) for c2 in enc)), loc=ex.loc(c))
     # allocation factor
-    mx = max([r for _, r in enc.values() if r] or [0])
+    mx = max([len(l) for l, _ in enc.values()] or [0])
     for c in ex.calls("malloc"):
         v = src(args(c)[0])
         m = re.search(r"(\d+) \* ", v) or re.search(r" \* (\d+)", v)
